@@ -384,6 +384,8 @@ class Sim:
         self._code_traced: Dict[object, int] = {}
         self.lock_contention = 0
         self.lock_acquires = 0
+        self.stalled = set()
+        self.stalls = 0
         # probes: function name -> probe name ; counts "entered by a
         # second thread while another thread is inside"
         self.probe_sites = probe_sites or {}
@@ -394,10 +396,29 @@ class Sim:
 
     # -- state queries
     def is_runnable(self, t: SimThread) -> bool:
-        return not t.done and t.blocked_on is None
+        return not t.done and t.blocked_on is None and t.idx not in self.stalled
 
     def runnable(self) -> List[SimThread]:
-        return [t for t in self.threads if not t.done and t.blocked_on is None]
+        run = [t for t in self.threads if not t.done and t.blocked_on is None and t.idx not in self.stalled]
+        if not run and self.stalled:
+            # nothing else can run: the stalled callbacks return
+            self.stalled.clear()
+            run = [t for t in self.threads if not t.done and t.blocked_on is None]
+        return run
+
+    def stall(self) -> None:
+        """Fault "stalled callback": the current thread (inside a user callable) stays parked
+        until every other thread has finished or is blocked."""
+        cur = self.current
+        self.stalls += 1
+        self.stalled.add(cur.idx)
+        nxt = self._next_after(cur, "f")
+        if nxt is None or nxt is cur:
+            self.stalled.discard(cur.idx)
+            return
+        self._handoff(cur, nxt)
+        if self.outcome is not None:
+            raise SimAbort()
 
     def in_sim_thread(self) -> bool:
         return self.active and _get_ident() in self.idents
@@ -624,6 +645,7 @@ class Sim:
             "deadlock": self.deadlock_info,
             "lock_contention": self.lock_contention,
             "lock_acquires": self.lock_acquires,
+            "stalls": self.stalls,
             "probes": dict(self.probes),
         }
 
